@@ -152,6 +152,9 @@ def run_prop(prop, tier, seed, replay=None, make_cases=None):
     ncmp, gviol = pe.check_genimpls([c.invocation() for c in cases] + icase_invs)
     stats['helper_impls_compared'] = ncmp
     violations += gviol
+    ncmp2, mviol = pe.check_mainimpls([c.invocation() for c in cases] + icase_invs)
+    stats['main_impls_compared'] = ncmp2
+    violations += mviol
     if stats['spec_checked'] and stats['oracle_inconclusive'] > max(2, 0.02 * stats['spec_checked']):
         raise cm.HarnessError('the Coq model of trait resolution (RustSem.applicable) disagrees with rustc on %d of %d cases'
                               % (stats['oracle_inconclusive'], stats['spec_checked']))
